@@ -269,7 +269,8 @@ class Run(object):
             try:
                 if type(r) is list:
                     r.append(('zz-caller', 'edit'))
-                    del r[:1]
+                    if len(r) > 1:
+                        del r[:1]
                 elif type(r) is dict:
                     for v in r.values():
                         if type(v) is list:
